@@ -68,6 +68,8 @@ type Step struct {
 	// MidUpdate: a management call made while the waiters wait (starve); Flips: model changes of an emstorm step
 	MidUpdate *Update `json:"midupdate"`
 	Flips     int     `json:"flips"`
+	// Plugin: cold sessions: a plugin file that is hot-loaded (GenginePool.PluginLoader) while the requests run
+	Plugin string `json:"plugin"`
 	// DelayMs: starve: the waiters are left waiting this long before the first holder is let go (steering only);
 	// RaceQueries: updrace in a silent (race-detector) session: the query methods run at the same time
 	DelayMs     int  `json:"delayms"`
